@@ -17,7 +17,8 @@ LEVEL = "exploration"
 RULE = ("seeded generator over operator (grad, laplacian without/with grad=, div, jac, rot, partial orders 1-4 "
         "incl. mixed/repeated, normal_derivative, convective, sym_grad, matrix_div) x 1-3 named variables of "
         "dimension 1-3 x ordered non-empty subset of them as derivative variables x batch shape (b,d) | (b1,b2,d) "
-        "(two batch axes only for grad/laplacian/div/partial/normal_derivative) x float32|float64 x one random "
+        "(two batch axes only for grad/laplacian/div/partial/normal_derivative) x float32|float64 x variables as own "
+        "tensors | as column views of one point tensor x one random "
         "expression tree per field component (ops + - * sin cos exp tanh, integer powers, constants k/4, depth<=4) "
         "following a dependence template (generic | constant | not involving the derivative variables | linear "
         "with constant coefficients | linear with coefficients depending on the other variables | bilinear | "
@@ -95,7 +96,6 @@ def _gen_one(rng, op, tier, i):
     for v in vars_:
         if v[0] not in deriv and rng.random() < 0.3:
             v[2] = False                                # a parameter-like input without requires_grad
-    dset = [v for v in vars_ if v[0] in set(deriv)]
     dorder = []                                         # derivative variables, in call order, no repetition
     for n in deriv:
         if n not in dorder:
@@ -133,8 +133,9 @@ def _gen_one(rng, op, tier, i):
     c = {"op": op, "vars": vars_, "deriv": deriv, "batch": batch,
          "dtype": "float32" if rng.random() < 0.5 else "float64",
          "shape": shape, "field": comps, "templates": tmpl, "seed": int(rng.integers(0, 2 ** 31))}
+    c["layout"] = "view" if rng.random() < 0.3 else "own"   # "view": variables are column slices of one tensor
     if op == "laplacian":
-        c["mode"] = "grad=" if rng.random() < 0.5 else "plain"
+        c["mode"] = str(rng.choice(["plain", "grad=", "grad=autograd"], p=[0.45, 0.35, 0.2]))
     return c
 
 
@@ -252,11 +253,23 @@ def _call(c, P, extra, batch):
     from torchphysics.utils import differentialoperators as D
     dt = torch.float32 if c["dtype"] == "float32" else torch.float64
     env = {}
-    for v in c["vars"]:
-        tns = torch.tensor(P[v[0]], dtype=dt)
-        if v[2]:
-            tns.requires_grad_(True)
-        env[v[0]] = tns
+    if c.get("layout") == "view":
+        # the way the library itself hands variables to user code (Points.track_coord_gradients): column
+        # slices of one point tensor, each made a leaf that requires grad
+        big = torch.tensor(np.concatenate([P[v[0]] for v in c["vars"]], axis=-1), dtype=dt)
+        col = 0
+        for v in c["vars"]:
+            tns = big[..., col:col + v[1]]
+            col += v[1]
+            if v[2]:
+                tns.requires_grad = True
+            env[v[0]] = tns
+    else:
+        for v in c["vars"]:
+            tns = torch.tensor(P[v[0]], dtype=dt)
+            if v[2]:
+                tns.requires_grad_(True)
+            env[v[0]] = tns
     like = env[c["vars"][0][0]]
     m, n = c["shape"]
     comps = [X.eval_torch(t, env, like) for t in c["field"]]
@@ -273,6 +286,13 @@ def _call(c, P, extra, batch):
     if op == "laplacian" and c.get("mode") == "grad=":
         g = D.grad(u, *dv)
         out = f(u, *dv, grad=g)
+    elif op == "laplacian" and c.get("mode") == "grad=autograd":
+        # gradient "computed somewhere else": plain autograd, zeros for variables u does not involve
+        gs = []
+        for xv in dv:
+            gi = torch.autograd.grad(u.sum(), xv, create_graph=True, allow_unused=True)[0] if u.requires_grad else None
+            gs.append(torch.zeros_like(xv) if gi is None else gi)
+        out = f(u, *dv, grad=torch.cat(gs, dim=-1))
     elif op == "normal_derivative":
         out = f(u, torch.tensor(extra["normals"].reshape(*batch, -1), dtype=dt), *dv)
     elif op == "convective":
@@ -301,7 +321,8 @@ def run_case(c):
     N = int(np.prod(batch))
     dim_of = {v[0]: v[1] for v in c["vars"]}
     ntot = sum(dim_of[nme] for nme in c["deriv"])
-    mech = {"op": op, "mode": c.get("mode", "-"), "n_deriv_vars": len(c["deriv"]), "batch_rank": len(batch),
+    mech = {"op": op, "mode": c.get("mode", "-"), "layout": c.get("layout", "own"),
+            "n_deriv_vars": len(c["deriv"]), "batch_rank": len(batch),
             "dtype": c["dtype"], "dependence": _zero_class(c),
             "deriv_dims": "".join(str(dim_of[nme]) for nme in c["deriv"])}
 
@@ -388,6 +409,10 @@ def _count_branches(c, cnt, exp):
         cnt["cases_with_several_derivative_variables"] = 1
     if len(c["batch"]) > 1:
         cnt["cases_with_two_batch_axes"] = 1
+    if c.get("layout") == "view":
+        cnt["cases_with_variables_as_column_views"] = 1
+    if c.get("mode", "-").startswith("grad="):
+        cnt["laplacian_calls_with_grad_argument"] = 1
     if np.all(exp == 0.0):
         cnt["cases_with_identically_zero_result"] = 1
 
